@@ -137,6 +137,9 @@ def run_corpus(exe, corp):
         lines.append("fill 0 r %d" % (len(p) * 131 + len(s)))
         lines.append(rt.crypt_line("crypt_rn", 0, p, s))
         lines.append("checksalt %s" % pool.hx(s))
+        # the arguments kept in the object's own input/setting fields, random bytes behind their terminators
+        lines.append("fill 0 r %d" % (len(p) * 17 + len(s) + 5))
+        lines.append(rt.crypt_line("crypt_rn", 0, p, s, "=", "i"))
     rb = facts.rbytes_pattern("inc", 64)
     gl = []
     for m in gen.METHODS:
@@ -157,10 +160,11 @@ def run_corpus(exe, corp):
         return None, end, lines
     out = {"crypt": [], "gensalt": {}, "preferred": rt.unhx(res[-1].get("v", "-"))}
     for i, (fam, p, s) in enumerate(corp):
-        a, b = res[2 + 3 * i], res[3 + 3 * i]
+        a, b, c = res[2 + 5 * i], res[3 + 5 * i], res[5 + 5 * i]
         out["crypt"].append((rt.hash_of(a), rt.errno_of(a), int(b["v"])))
+        out.setdefault("inobj", []).append(rt.hash_of(c))
         out.setdefault("mon", []).append({k: a.get(k) for k in ("can", "nul", "iz", "rz", "init", "r")})
-    base = 1 + 3 * len(corp)
+    base = 1 + 5 * len(corp)
     for k, (m, pre) in enumerate(gl):
         r = res[base + k]
         out["gensalt"][m] = (rt.out_of(r) if r["r"] == "O" else None, rt.errno_of(r))
@@ -190,6 +194,9 @@ def judge(acc, name, en, got, full, corp, ipd):
             viol("object-monitor", "crypt(%r, %r): canary/NUL/pointer monitor %s" % (p, s, mon))
         if gen.must_fail(p, s, en) is None and (mon.get("iz") == "0" or mon.get("rz") == "0" or mon.get("init") not in ("0", None)):
             viol("scratch-not-wiped", "crypt(%r, %r): internal/reserved/initialized not reset %s" % (p, s, mon))
+        if "inobj" in got and got["inobj"][i] != h and len(p) < 512 and len(s) < 384:
+            viol("in-object-arguments-differ", "crypt_rn(%r, %r) gives %r with separate argument buffers and %r with the "
+                                               "arguments kept in data->input / data->setting" % (p, s, h, got["inobj"][i]))
         m = gen.classify(s, en)                 # which enabled method claims it (None: nobody)
         m_full = gen.classify(s)
         exp_v = gen.checksalt_expect(s, en)
